@@ -144,12 +144,22 @@ func (e *Exec) evalSpec1(x ast.Expr, env *SpecEnv) (Val, types.Type) {
 			if s.Elem == SBool {
 				return bv(r), et
 			}
+			if et != nil && kindOf(et) == kSlice {
+				return e.handleSlice(r), et // element of a slice of slices: decode the handle
+			}
 			return iv(r), et
 		case SliceV:
 			return e.readElem(s, e.asInt(i), elemType(bt)), elemType(bt)
 		case SV:
 			if m, ok := bt.Underlying().(*types.Map); ok {
 				return e.mapRead(s.T, e.mapKey(i, m.Key()), m.Elem()), m.Elem()
+			}
+			if bt != nil && kindOf(bt) == kString {
+				// s[i] on a string: the same term the program-side indexing produces
+				e.declareFun("strat", []string{SInt, SInt}, SInt)
+				r := sx("strat", s.T, e.asInt(i))
+				e.addFact(mkAnd(sx("<=", "0", r), sx("<=", r, "255")))
+				return iv(r), types.Typ[types.Byte]
 			}
 		}
 		return e.specErr("unsupported index base of type %s", bt)
@@ -231,6 +241,13 @@ func (e *Exec) specIdent(id *ast.Ident, env *SpecEnv) (Val, types.Type) {
 					}
 					if st != nil {
 						if v, ok := st.vars[o]; ok {
+							return v, o.Type()
+						}
+					}
+					if env.inOld && env.cur != nil && st != env.cur {
+						// a local that did not exist in the old state: inside old() it denotes its current value
+						// (old(m[k]) with a local key k reads the old map at the current key)
+						if v, ok := env.cur.vars[o]; ok {
 							return v, o.Type()
 						}
 					}
@@ -541,6 +558,9 @@ func (e *Exec) specCall(c *ast.CallExpr, env *SpecEnv) (Val, types.Type) {
 			case ArrSliceV:
 				return iv(s.Len), tInt
 			case SliceV:
+				if id.Name == "cap" && s.Cap != "" {
+					return iv(s.Cap), tInt
+				}
 				return iv(s.Len), tInt
 			case SV:
 				if t != nil {
@@ -699,6 +719,10 @@ func (e *Exec) specCall(c *ast.CallExpr, env *SpecEnv) (Val, types.Type) {
 			}
 			key := fmt.Sprintf("%s:%s#%d.%d", id.Name, name, k, i)
 			v, found := e.st.vars[key]
+			if !found && env.inOld && env.cur != nil {
+				// inside old(): the arguments/results of a call are values, not state: read the recorded ones
+				v, found = env.cur.vars[key]
+			}
 			t := e.siteType(id.Name, name, k, i)
 			if !found {
 				if !e.hasSite(name, k) {
